@@ -37,7 +37,9 @@ PROP = {
             "Stop, wait Stopped, cancel Run ctx, Close, second Run} with 1..5 handlers (scripted subscribers whose Subscribe calls are "
             "counted; GoChannel for delivery right after Running()), handlers added before and after Run; Stop issued while RunHandlers is "
             "parked at runhandlers.started (right after Started() closed); a router started empty with the self-close watcher parked "
-            "before its select while the first handler is added; stop-one / stop-all / cancel families; a start-up in which one of three subscriptions is refused (Run returns the error, "
+            "before its select while the first handler is added; stop-one / stop-all / cancel families; a router started empty whose Run context is cancelled before the first AddHandler, or "
+            "after AddHandler+RunHandlers while the watcher is parked before its select (4 rounds): the handler ends, the router must close "
+            "itself and Run return nil; the failed-Subscribe scenarios run in child processes (a wrong handlersWg count panics in a router goroutine); a start-up in which one of three subscriptions is refused (Run returns the error, "
             "Running() must be found open, a second Run is refused, a later RunHandlers starts all three); a second Run issued while the "
             "first is inside a gated Subscribe (refused at once, bounded call; the first goes on normally; child process); a handler function gated beyond CloseTimeout while the router is closed by a caller / "
             "closes itself after cancel / after Stop of the last handler (the Close times out; Run must still return nil within the "
